@@ -22,3 +22,18 @@ pub(crate) fn rotate_step(k: usize, src: &str, dst: &str) -> io::Result<()> {
         None => Ok(()),
     }
 }
+
+/// Clock override for the time trigger: when set, `TimeTrigger` reads this
+/// instant (UTC seconds, nanoseconds) instead of the system clock.
+static CLOCK: Mutex<Option<(i64, u32)>> = Mutex::new(None);
+
+pub fn set_clock(now: Option<(i64, u32)>) {
+    *CLOCK.lock().unwrap_or_else(|e| e.into_inner()) = now;
+}
+
+#[cfg(feature = "chrono")]
+pub(crate) fn clock_now() -> Option<chrono::DateTime<chrono::Local>> {
+    use chrono::TimeZone;
+    let now = *CLOCK.lock().unwrap_or_else(|e| e.into_inner());
+    now.and_then(|(s, n)| chrono::Local.timestamp_opt(s, n).single())
+}
